@@ -3,6 +3,11 @@
 package receiver
 
 import (
+	"io"
+	"net"
+	"sync"
+	"time"
+
 	"github.com/VKCOM/statshouse/internal/agent"
 	"github.com/VKCOM/statshouse/internal/data_model/gen2/tlstatshouse"
 )
@@ -42,9 +47,14 @@ func NewVerifWire() *VerifWire {
 }
 
 // Parse runs parser.parse on pkt; returns the accounting items touched (e.g. "tl+") and parse's error.
-func (w *VerifWire) Parse(h Handler, pkt []byte) (string, error) {
+func (w *VerifWire) Parse(h Handler, pkt []byte) (string, error) { return w.ParseOpt(h, pkt, true) }
+
+// ParseOpt: poison=false leaves the decoded content in the reused batch (REAL previous content for the next packet).
+func (w *VerifWire) ParseOpt(h Handler, pkt []byte, poison bool) (string, error) {
 	err := w.p.parse(h, nil, pkt, &w.batch, &w.scratch, "")
-	w.poison()
+	if poison {
+		w.poison()
+	}
 	acc := ""
 	for _, it := range w.items {
 		if c := it.v.VerifWireTakeCount(); c != 0 {
@@ -60,8 +70,57 @@ func (w *VerifWire) Parse(h Handler, pkt []byte) (string, error) {
 	return acc, err
 }
 
-// VerifFrames is the framing part of TCP.receiveLoop applied to a fully buffered stream: the frames
-// handed to parse, and whether the loop ended with a framing error.
+// VerifTCPStream drives the real stream receiver (TCP.Serve -> goHandshake -> receiveLoop, the unix-stream flavour:
+// no handshake) over a loopback TCP connection: the client performs the given writes, half-closes and waits for
+// the server to close.  Returns the frames handed to the RawHandler, whether receiveLoop accounted a framing error,
+// and hang=true when the server did not finish within the timeout.
+func VerifTCPStream(writes [][]byte, timeout time.Duration) (frames [][]byte, framingErr bool, hang bool, fail string) {
+	ln, err := net.Listen("tcp", "127.0.0.1:0")
+	if err != nil {
+		return nil, false, false, "listen: " + err.Error()
+	}
+	recv := NewUnixReceiver(nil, nil)
+	fe := &agent.BuiltInItemValue{}
+	recv.packetSizeFramingError = fe
+	var mu sync.Mutex
+	rh := func(b []byte) error {
+		mu.Lock()
+		frames = append(frames, append([]byte(nil), b...))
+		mu.Unlock()
+		return nil
+	}
+	go func() { _ = recv.Serve(rh, nil, ln) }()
+	conn, err := net.Dial("tcp", ln.Addr().String())
+	if err != nil {
+		recv.Shutdown()
+		return nil, false, false, "dial: " + err.Error()
+	}
+	done := make(chan struct{})
+	go func() {
+		defer close(done)
+		for _, w := range writes {
+			if _, err := conn.Write(w); err != nil {
+				break // the server closed the connection (framing error)
+			}
+		}
+		if tc, ok := conn.(*net.TCPConn); ok {
+			_ = tc.CloseWrite()
+		}
+		_, _ = io.Copy(io.Discard, conn) // until the server closes its side
+	}()
+	select {
+	case <-done:
+	case <-time.After(timeout):
+		hang = true
+	}
+	_ = conn.Close()
+	recv.Shutdown() // not Close: it would wait for a stuck connection goroutine
+	mu.Lock()
+	defer mu.Unlock()
+	out := append([][]byte(nil), frames...)
+	return out, fe.VerifWireTakeCount() != 0, hang, ""
+}
+
 func VerifMaxTCPFrameBody() int { return MaxTCPFrameBody }
 
 // poison scribbles over everything the reused batch still holds (up to capacity), so that a decoder which
